@@ -7,7 +7,7 @@ from .sorts import *
 from .source import find_loops, loop_header
 from .engine import (OutOfSubset, PathEnd, PyExc, ReturnSig, BreakSig, ContinueSig, Const, FuncVal, Builtin,
                      LambdaVal, ClassVal, Obligation, Frame, exc_isa)
-from .ops import OpsMixin
+from .ops import OpsMixin, liftable
 from .calls import CallsMixin
 
 CLS = {'list': 1, 'dict': 2, 'set': 3, 'deque': 4, 'gen': 5}
@@ -28,7 +28,7 @@ class Run(OpsMixin, CallsMixin):
         self.obligations = obligations
         self.pc = []
         self.solver = z3.Solver()
-        self.solver.set('timeout', 3000)
+        self.solver.set('timeout', 600)
         self.pc_hash = hashlib.md5()
         self.heap = {}
         self.alloc = None
@@ -45,6 +45,7 @@ class Run(OpsMixin, CallsMixin):
         self.classes = {}         # class name -> id
         self.bound = {}           # spec-mode bound variables
         self.iter_elem = {}       # address sexpr -> declared element type of an iterator
+        self.dict_key_type = {}   # address sexpr -> declared key type of a dict
 
     # ------------------------------------------------------------------ basics
     def fresh(self, name, sort=None):
@@ -71,6 +72,19 @@ class Run(OpsMixin, CallsMixin):
         self.pc.append(cond)
         self.solver.add(cond)
         self.pc_hash.update(cond.sexpr().encode())
+        self._note_tags(cond)
+
+    def _note_tags(self, cond):
+        """Remember `is_T(v)` facts on the path so that spec expressions can be typed without asking the solver."""
+        try:
+            if z3.is_and(cond):
+                for c in cond.children():
+                    self._note_tags(c)
+            elif z3.is_app(cond) and cond.decl().kind() == z3.Z3_OP_DT_IS:
+                ctor = cond.decl().params()[0].name()
+                self.tagcache[cond.arg(0).sexpr()] = ctor
+        except Exception:
+            pass
 
     def feasible(self, cond):
         cond = z3.simplify(cond)
@@ -182,6 +196,12 @@ class Run(OpsMixin, CallsMixin):
         if ty in CLS or ty in self.eng.repo.classes:
             return z3.And(Value.is_VRef(v), Value.a(v) >= 0, Value.a(v) < self.alloc,
                           z3.Select(self.field('cls'), Value.a(v)) == self.class_id(ty))
+        if ty.startswith('dict[') and ty.endswith(']'):
+            a = Value.a(v)
+            self.dict_key_type[z3.simplify(a).sexpr()] = ty[5:-1]
+            return z3.And(Value.is_VRef(v), a >= 0, a < self.alloc,
+                          z3.Select(self.field('cls'), a) == self.class_id('dict'),
+                          z3.Select(self.field('dict.n'), a) >= 0)
         if ty.startswith('iter[') and ty.endswith(']'):
             a = Value.a(v)
             self.iter_elem[z3.simplify(a).sexpr()] = ty[5:-1]
@@ -336,7 +356,12 @@ class Run(OpsMixin, CallsMixin):
         pass
 
     def st_Return(self, st):
-        raise ReturnSig(self.val(self.ev(st.value)) if st.value is not None else VNone)
+        if st.value is None:
+            raise ReturnSig(VNone)
+        v = self.ev(st.value)
+        if isinstance(v, Const) and not liftable(v.py):
+            raise ReturnSig(v)      # a module-level constant object escapes (judged by the postconditions)
+        raise ReturnSig(self.val(v))
 
     def st_Break(self, st):
         raise BreakSig()
